@@ -83,11 +83,12 @@ class FlowMixin:
                 g.last_susp = g.inv_base
                 self.assume_invariants_eagerly(g)
             else:
-                self.havoc_keys(g, written)
+                self.havoc_keys(g, written, proto=back[0][0])
             idx = None
             if for_ctx is not None:
                 idx = fresh("it", z3.IntSort())
                 g.assume(idx >= 1)
+                g.assume(idx <= for_ctx.n)
             for inv in invs:
                 g.assume(self.eval_clause(inv, g, extra=self.loop_env(for_ctx, idx)))
             back2 = []
@@ -204,12 +205,16 @@ class FlowMixin:
                     continue
                 raise Unsupported("loop-carried local %s of kind %s" % (n, type(v).__name__))
 
-    def havoc_keys(self, st, keys):
+    def havoc_keys(self, st, keys, proto=None):
         for key in sorted(keys):
             cur = st.heap.get(key)
+            if cur is None and proto is not None:
+                cur = proto.heap.get(key)
             if cur is None:
-                continue
+                raise Unsupported("cannot havoc heap key %s (sort unknown)" % key)
             st.heap[key] = fresh("Hh!" + key, cur.sort())
+            for ax in self.born_before(st.heap[key], st.clock, key):
+                st.assume(ax)
             if key.endswith("#n"):
                 x = z3.Const("x!hk", RefS)
                 st.assume(z3.ForAll([x], z3.Select(st.heap[key], x) >= 0))
@@ -486,6 +491,8 @@ class FlowMixin:
         st.last_susp = st.snap()
         st.inv_base = st.last_susp
         self.assume_invariants_eagerly(st)
+        if self.cur_contract is not None and not self.cur_contract.no_invariants:
+            self.assume_kernel_facts(st, resume=True)
         outs = []
         # --- resumption 1: an interrupt of the Interrupt family, live and addressed to me
         s1 = st.copy()
@@ -594,6 +601,26 @@ class FlowMixin:
                         wv = z3.Select(warr, o)
                         conds.append(wv if wty[0] == "bool" else wv != NULL)
                     st.assume(z3.Implies(z3.Or(*conds), nv == ov))
+        # rely conditions (registry): quantified over all objects of the class
+        for (cn, fields, when, why) in self.reg.relies:
+            x = z3.Const("rely!" + cn, RefS)
+            xv = Val(REF(cn), x)
+            fr = Frame(self.cur_func, None, spec=True)
+            fr.locals = {"self": xv, "me": Val(ANY, self.me_const)}
+            s_old = st.copy()
+            s_old.heap_override = pre
+            cond = self.eval_clause(when, s_old, frame=fr)
+            eqs = []
+            for f in fields:
+                key, ty, _g = self.field_decl(cn, f)
+                sort = self.key_sort(key, ty)
+                new_arr = st.harr(key, sort)
+                old_arr = pre.heap.get(key)
+                if old_arr is None:
+                    old_arr = st.hs.initial(pre.epoch, key, sort)
+                eqs.append(z3.Select(new_arr, x) == z3.Select(old_arr, x))
+            self.assumptions_used.add("rely: %s.%s unchanged across my suspensions while %s (%s)" % (cn, "/".join(fields), when, why))
+            st.assume(z3.ForAll([x], z3.Implies(z3.And(x != NULL, subclass(cls_of(x), cls_const(cn)), cond), z3.And(*eqs))))
         if c is None:
             return
         for ex in c.stable:
